@@ -147,7 +147,7 @@ Proof.
   - exists rid. assumption.
 Qed.
 
-Ltac wsimpl := unfold handles, set_delegate, set_n, set_tm, cancel_handle, set_now, set_ready, set_sched, set_scr, redefine, add_timer in *; cbn [w_now w_next w_sched w_ready w_canc w_nt w_tm w_scr w_bind w_nver m_clock m_cur m_st m_ver m_count t_interval t_start t_delegate t_n t_fn0 hid hwhen htgt] in *.
+Ltac wsimpl := unfold handles, set_delegate, set_tm, cancel_handle, set_now, set_ready, set_sched, set_scr, redefine, add_timer in *; cbn [w_now w_next w_sched w_ready w_canc w_nt w_tm w_scr w_bind w_nver m_clock m_cur m_st m_ver m_count t_interval t_start t_delegate t_n t_fn0 hid hwhen htgt] in *.
 
 Lemma upd_true_false (f : nat -> bool) id x : upd f id true x = false -> x <> id /\ f x = false.
 Proof.
@@ -187,4 +187,1068 @@ Proof.
     rewrite upd_other in Hs by assumption. rewrite upd_other by assumption. eauto.
   - intros i Hi. rewrite upd_other by lia. eauto.
   - intros id' Hi. unfold upd. destruct (Nat.eqb id' id) eqn:Eq; [apply Nat.eqb_eq in Eq; lia|]. eauto.
+Qed.
+
+Lemma dead_no_delegate res run w m j :
+  GInv res run w m -> t_delegate (w_tm w j) = None -> is_alive (m_st m j) = false.
+Proof.
+  intros H Hd. destruct (m_st m j) as [|s iv d|] eqn:Es; try reflexivity.
+  destruct (alive_has_delegate _ _ _ _ _ _ _ _ H Es) as (id & Hid). congruence.
+Qed.
+
+(* eval_sys_fn_cancel_timer: its result is what the checker demands, and the invariant survives *)
+Lemma timerc_inv res run w m j w' r :
+  GInv res run w m -> sys_timerc j w = (w', r) ->
+  exists m', mon_step false res m (EvCancel j (w_now w) r) = Some m' /\ GInv res run w' m' /\ w_now w' = w_now w.
+Proof.
+  intros H E. pose proof (g_clock _ _ _ _ H) as Hclk. apply Z.leb_le in Hclk.
+  unfold sys_timerc in E. destruct (j <? w_nt w)%nat eqn:Ej.
+  - unfold handler_cancel in E. destruct (t_delegate (w_tm w j)) as [id|] eqn:Ed.
+    + inversion E; subst w' r; clear E.
+      destruct (delegate_known _ _ _ _ _ _ H Ed) as (s & iv & d & Es & _).
+      cbn [mon_step]. rewrite Hclk, Es. cbn [is_alive Bool.eqb andb].
+      eexists. split; [reflexivity|]. split; [|reflexivity].
+      eapply ginv_ext; [apply (ginv_kill _ _ _ _ _ _ H Ed) | reflexivity | wsimpl; lia | reflexivity | reflexivity | reflexivity].
+    + inversion E; subst w' r; clear E.
+      pose proof (dead_no_delegate _ _ _ _ _ H Ed) as Ha.
+      cbn [mon_step]. rewrite Hclk, Ha. cbn [Bool.eqb andb].
+      eexists. split; [reflexivity|]. split; [|reflexivity].
+      eapply ginv_ext; [apply H | reflexivity | wsimpl; lia | reflexivity | reflexivity | reflexivity].
+  - inversion E; subst w' r; clear E.
+    apply Nat.ltb_ge in Ej. pose proof (g_none _ _ _ _ H j Ej) as Hn.
+    cbn [mon_step]. rewrite Hclk, Hn. cbn [is_alive Bool.eqb andb].
+    eexists. split; [reflexivity|]. split; [|reflexivity].
+    eapply ginv_ext; [apply H | reflexivity | wsimpl; lia | reflexivity | reflexivity | reflexivity].
+Qed.
+
+(* the clock only moves forward *)
+Lemma ginv_advance res run w m t :
+  GInv res run w m -> w_now w <= t -> GInv res run (set_now w t) m.
+Proof.
+  intros H Ht. ginv H. constructor; wsimpl; try assumption; try lia.
+  intros h Hin. specialize (Hrdy h Hin). lia.
+Qed.
+
+Lemma ginv_redefine res run w m k :
+  GInv res run w m ->
+  GInv res run (redefine w k) (mk_mstate (m_clock m) (m_cur m) (m_st m) (upd (m_ver m) k (w_nver w)) (m_count m)).
+Proof.
+  intros H. ginv H. constructor; wsimpl; try assumption.
+  intros k'. unfold upd. destruct (Nat.eqb k' k); auto.
+Qed.
+
+Lemma ginv_scr res run w m s : GInv res run w m -> GInv res run (set_scr w s) m.
+Proof. intros H. ginv H. constructor; wsimpl; assumption. Qed.
+
+Lemma insert_h_perm b h l : Permutation (insert_h b h l) (h :: l).
+Proof.
+  induction l as [|x l IH]; cbn [insert_h]; [apply Permutation_refl|].
+  destruct (if b then hwhen h <=? hwhen x else hwhen h <? hwhen x); [apply Permutation_refl|].
+  eapply perm_trans; [apply perm_skip; exact IH | apply perm_swap].
+Qed.
+
+(* the callback finished and its timer is not alive any more *)
+Lemma ginv_finish res i rid w m :
+  GInv res (Some (i, rid)) w m -> is_alive (m_st m i) = false ->
+  GInv res None w (mk_mstate (m_clock m) None (m_st m) (m_ver m) (m_count m)).
+Proof.
+  intros H Hd. ginv H. constructor; wsimpl; try assumption; try reflexivity.
+  - intros i0 rid0 E. discriminate.
+  - intros i0 s iv d Hs.
+    destruct (Halive i0 s iv d Hs) as (A & B & C & D & [E | (rid0 & E & _)]).
+    + repeat split; try assumption. left. assumption.
+    + exfalso. assert (i0 = i) by congruence. subst i0. rewrite Hs in Hd. discriminate.
+Qed.
+
+(* a raising callback: the delegate is dropped *)
+Lemma ginv_raise res i rid w m :
+  GInv res (Some (i, rid)) w m ->
+  GInv res (Some (i, rid)) (set_delegate w i None)
+       (mk_mstate (m_clock m) (m_cur m) (upd (m_st m) i (if is_alive (m_st m i) then TDead else m_st m i)) (m_ver m) (m_count m)).
+Proof.
+  intros H. ginv H.
+  destruct (Hrid i rid eq_refl) as (R1 & R2 & R3 & R4).
+  constructor; wsimpl; try assumption.
+  - intros h i0 Hin Ht Hc. destruct (Nat.eq_dec i0 i) as [->|Hne].
+    + rewrite (R4 h Hin Ht) in Hc. discriminate.
+    + rewrite upd_other by assumption. eauto.
+  - intros i0 s iv d Hs. destruct (Nat.eq_dec i0 i) as [->|Hne].
+    + rewrite upd_same in Hs. destruct (m_st m i); discriminate.
+    + rewrite upd_other in Hs by assumption. rewrite upd_other by assumption. eauto.
+  - intros i0 Hs. destruct (Nat.eq_dec i0 i) as [->|Hne]; [rewrite upd_same; reflexivity|].
+    rewrite upd_other in Hs by assumption. rewrite upd_other by assumption. eauto.
+  - intros i0 Hi. rewrite upd_other by lia. eauto.
+Qed.
+
+(* a new loop handle hn for timer i becomes its delegate (first arming in _call_periodic, re-arm in run) *)
+Lemma ginv_arm res run0 w m sched' ready' i t nt' hn s iv d :
+  0 < res ->
+  GInv res run0 w m ->
+  Permutation (sched' ++ ready') (hn :: handles w) ->
+  (forall h, In h ready' -> h = hn \/ In h (w_ready w)) ->
+  (In hn ready' -> hwhen hn - res < w_now w) ->
+  hid hn = w_next w -> htgt hn = TRun i -> hwhen hn = d ->
+  t_delegate t = Some (w_next w) -> t_start t = s -> t_interval t = iv -> 0 <= iv ->
+  (0 < iv -> d = s + t_n t * iv) ->
+  (i < nt')%nat -> (w_nt w <= nt')%nat ->
+  (forall h, In h (handles w) -> htgt h = TRun i -> w_canc w (hid h) = true) ->
+  (run0 = None \/ exists rid, run0 = Some (i, rid)) ->
+  GInv res None
+    (mk_world (w_now w) (S (w_next w)) sched' ready' (w_canc w) nt' (upd (w_tm w) i t) (w_scr w) (w_bind w) (w_nver w))
+    (mk_mstate (m_clock m) None (upd (m_st m) i (TAlive s iv d)) (m_ver m) nt').
+Proof.
+  intros Hres H HP Hr1 Hr2 Hid Htg Hwh Hdel Hst Hiv Hiv0 Hd Hint Hnt Hno Hrun. ginv H.
+  assert (HIn : forall h, In h (sched' ++ ready') -> h = hn \/ In h (handles w)).
+  { intros h Hh. pose proof (Permutation_in _ HP Hh) as [E|E]; auto. }
+  assert (HIn' : forall h, In h (handles w) -> In h (sched' ++ ready')).
+  { intros h Hh. apply (Permutation_in _ (Permutation_sym HP)). right. assumption. }
+  assert (HInn : In hn (sched' ++ ready')).
+  { apply (Permutation_in _ (Permutation_sym HP)). left. reflexivity. }
+  constructor; wsimpl; try assumption; try reflexivity.
+  - intros h Hh. destruct (HIn h Hh) as [->|Ho]; [lia|]. specialize (Hids h Ho). lia.
+  - apply (Permutation_NoDup (Permutation_sym (Permutation_map hid HP))). cbn [map]. constructor; [|assumption].
+    intros Hc. apply in_map_iff in Hc. destruct Hc as (h & E & Hh). specialize (Hids h Hh). lia.
+  - intros h Hh. destruct (Hr1 h Hh) as [->|Ho]; [apply Hr2; assumption|]. eauto.
+  - intros h i0 Hh Ht. destruct (HIn h Hh) as [->|Ho]; [congruence|]. specialize (Htgt h i0 Ho Ht). lia.
+  - intros h i0 Hh Ht Hc. destruct (HIn h Hh) as [->|Ho].
+    + assert (i0 = i) by congruence. subst i0. rewrite upd_same. congruence.
+    + destruct (Nat.eq_dec i0 i) as [->|Hne].
+      * rewrite (Hno h Ho Ht) in Hc. discriminate.
+      * rewrite upd_other by assumption. eauto.
+  - intros i0 rid0 E. discriminate.
+  - intros i0 s0 iv0 d0 Hs. destruct (Nat.eq_dec i0 i) as [->|Hne].
+    + rewrite upd_same in Hs. inversion Hs; subst s0 iv0 d0. rewrite upd_same.
+      repeat split; try assumption. left. exists hn. repeat split; try assumption.
+      rewrite Hid. apply Hfresh. lia.
+    + rewrite upd_other in Hs by assumption. rewrite upd_other by assumption.
+      destruct (Halive i0 s0 iv0 d0 Hs) as (A & B & C & D & [(h & Hh & E) | (rid0 & E & _)]).
+      * repeat split; try assumption. left. exists h. split; [apply HIn'; assumption | assumption].
+      * exfalso. destruct Hrun as [Hn | (rid & Hn)]; [congruence|]. apply Hne. congruence.
+  - intros i0 Hs. destruct (Nat.eq_dec i0 i) as [->|Hne]; [rewrite upd_same in Hs; discriminate|].
+    rewrite upd_other in Hs by assumption. rewrite upd_other by assumption. eauto.
+  - intros i0 Hi. rewrite upd_other by lia. apply Hnone. lia.
+  - intros id Hi. apply Hfresh. lia.
+Qed.
+
+Lemma in_mid {A} (x a : A) l r : In x (l ++ a :: r) -> x = a \/ In x (l ++ r).
+Proof.
+  intros H. apply in_app_or in H. destruct H as [H|[H|H]]; [right; apply in_or_app; auto | left; auto | right; apply in_or_app; auto].
+Qed.
+
+Lemma in_mid_inv {A} (x a : A) l r : In x (l ++ r) -> In x (l ++ a :: r).
+Proof.
+  intros H. apply in_app_or in H. apply in_or_app. destruct H; [left | right; right]; assumption.
+Qed.
+
+Lemma nodup_mid (l r : list handle) h :
+  NoDup (map hid (l ++ h :: r)) -> NoDup (map hid (l ++ r)) /\ forall x, In x (l ++ r) -> hid x <> hid h.
+Proof.
+  rewrite !map_app. cbn [map]. intros N. apply NoDup_remove in N. destruct N as [N1 N2]. split; [assumption|].
+  intros x Hx E. apply N2. rewrite <- map_app, <- E. apply in_map. assumption.
+Qed.
+
+(* the loop takes a live handle of timer i off the ready queue and enters run: the tick is the one the checker expects *)
+Lemma tick_start res w m h r i :
+  GInv res None w m -> w_ready w = h :: r -> w_canc w (hid h) = false -> htgt h = TRun i ->
+  exists m', mon_step false res m (EvTick i (w_now w) (hwhen h) (w_bind w i)) = Some m' /\
+             GInv res (Some (i, hid h)) (set_ready w r) m'.
+Proof.
+  intros H Er Hc Ht.
+  assert (Hin : In h (handles w)). { unfold handles. rewrite Er. apply in_or_app. right. left. reflexivity. }
+  pose proof (g_owner _ _ _ _ H h i Hin Ht Hc) as Hd.
+  destruct (delegate_known _ _ _ _ _ _ H Hd) as (s & iv & d & Es & Hlt & Hwho).
+  ginv H. cbn [option_map] in Hcur.
+  assert (Hw : hwhen h = d).
+  { destruct Hwho as [(h' & Hin' & _ & _ & Hw' & Hi') | Hr]; [|discriminate].
+    assert (h' = h) by (eapply nodup_map_inj; eauto). subst h'. assumption. }
+  assert (Hrd : hwhen h - res < w_now w). { apply Hrdy. rewrite Er. left. reflexivity. }
+  cbn [mon_step]. rewrite Hcur, Es.
+  replace (m_clock m <=? w_now w) with true by (symmetry; apply Z.leb_le; assumption).
+  replace (hwhen h =? d) with true by (symmetry; apply Z.eqb_eq; assumption).
+  replace (hwhen h - res <? w_now w) with true by (symmetry; apply Z.ltb_lt; assumption).
+  rewrite Hver, Nat.eqb_refl. cbn [andb].
+  eexists. split; [reflexivity|].
+  unfold handles in *. rewrite Er in *.
+  destruct (nodup_mid _ _ _ Hnd) as [Hnd' Hneq].
+  constructor; wsimpl; try assumption; try reflexivity; try lia.
+  - intros x Hx. apply Hids. apply in_mid_inv. assumption.
+  - intros x Hx. apply Hrdy. right. assumption.
+  - intros x i0 Hx. apply Htgt. apply in_mid_inv. assumption.
+  - intros x i0 Hx. apply Hown. apply in_mid_inv. assumption.
+  - intros i0 rid0 E. inversion E; subst i0 rid0. repeat split.
+    + assumption.
+    + eapply Htgt; eauto.
+    + assumption.
+    + intros x Hx Htx. destruct (w_canc w (hid x)) eqn:Ec; [reflexivity|]. exfalso.
+      pose proof (Hown x i (in_mid_inv _ _ _ _ Hx) Htx Ec) as Ho. apply (Hneq x Hx). congruence.
+  - intros i0 s0 iv0 d0 Hs.
+    destruct (Halive i0 s0 iv0 d0 Hs) as (A & B & C & D & [(h0 & Hh0 & Ht0 & Hc0 & Hw0) | (rid0 & E & _)]); [|discriminate].
+    repeat split; try assumption.
+    apply in_mid in Hh0. destruct Hh0 as [->|Hh0].
+    + right. assert (i0 = i) by congruence. subst i0. exists (hid h). split; [reflexivity | assumption].
+    + left. exists h0. auto.
+Qed.
+
+(* the body of a callback (clock advance, then .timerc / redefinition / raise) *)
+Lemma action_inv res run w m st w' evs raised :
+  GInv res run w m -> do_action st w = (w', evs, raised) ->
+  exists m', mon_run false res m evs = Some m' /\ GInv res run w' m'.
+Proof.
+  intros H E. unfold do_action in E.
+  set (w1 := set_now w (w_now w + Z.max 0 (s_dur st))) in *.
+  assert (H1 : GInv res run w1 m) by (apply ginv_advance; [assumption | lia]).
+  destruct (s_act st) as [|j|k|].
+  - inversion E; subst. exists m. split; [reflexivity | assumption].
+  - destruct (sys_timerc j w1) as [w2 r] eqn:Et. inversion E; subst w' evs raised; clear E.
+    destruct (timerc_inv _ _ _ _ _ _ _ H1 Et) as (m' & Hs & Hg & _).
+    exists m'. split; [|assumption]. unfold w1, set_now in Hs. cbn [w_now] in Hs.
+    cbn [mon_run]. rewrite Hs. reflexivity.
+  - inversion E; subst w' evs raised; clear E.
+    eexists. split; [cbn [mon_run mon_step]; reflexivity|].
+    apply (ginv_redefine _ _ _ _ k H1).
+  - inversion E; subst. exists m. split; [reflexivity | assumption].
+Qed.
+
+Definition flags_fixed (fl : flags) : Prop :=
+  f_guard fl = true /\ f_clear fl = true /\ f_mono fl = true /\ f_resolve fl = true.
+
+(* what follows the callback in run: raise / cancelled meanwhile / re-arm / stop *)
+Lemma epilogue_inv res cfg fl i rid st raised w m w' evs :
+  0 < res -> flags_fixed fl ->
+  GInv res (Some (i, rid)) w m -> epilogue fl cfg i st raised w = (w', evs) ->
+  exists m', mon_run false res m evs = Some m' /\ GInv res None w' m'.
+Proof.
+  intros Hres (Fg & Fc & Fm & _) H E. unfold epilogue in E. rewrite Fg, Fc in E.
+  pose proof (g_cur _ _ _ _ H) as Hcu. cbn [option_map fst] in Hcu.
+  pose proof (g_clock _ _ _ _ H) as Hclk. apply Z.leb_le in Hclk.
+  destruct raised.
+  - (* the callback raised *)
+    inversion E; subst w' evs; clear E.
+    cbn [mon_run mon_step]. rewrite Hcu, Nat.eqb_refl, Hclk. cbn [andb].
+    eexists. split; [reflexivity|].
+    pose proof (ginv_raise _ _ _ _ _ H) as H1.
+    eapply ginv_ext; [eapply ginv_finish; [exact H1|] | reflexivity | wsimpl; lia | reflexivity | | reflexivity].
+    + wsimpl. rewrite upd_same. destruct (m_st m i); reflexivity.
+    + intros i0. wsimpl. unfold upd. destruct (Nat.eqb i0 i) eqn:Ei; [|reflexivity].
+      apply Nat.eqb_eq in Ei. subst i0. destruct (m_st m i); reflexivity.
+  - cbn [andb] in E. destruct (t_delegate (w_tm w i)) as [x|] eqn:Ed; cbn [is_none] in E.
+    + (* still armed: re-arm or stop *)
+      destruct (delegate_known _ _ _ _ _ _ H Ed) as (s & iv & d & Es & Hlt & Hwho).
+      pose proof H as H0. ginv H0.
+      destruct (Hrid i rid eq_refl) as (R1 & R2 & R3 & R4).
+      destruct (Halive i s iv d Es) as (A1 & A2 & A3 & A4 & _).
+      destruct (s_ret st).
+      * (* returned true: re-arm *)
+        inversion E; subst w' evs; clear E.
+        cbn [mon_run mon_step]. rewrite Hcu, Nat.eqb_refl, Hclk, Es. cbn [andb].
+        eexists. split; [reflexivity|].
+        unfold rearm. rewrite A1, A2, Fm.
+        destruct (iv =? 0) eqn:Eiv.
+        -- apply Z.eqb_eq in Eiv. unfold call_soon, set_tm. wsimpl.
+           eapply ginv_ext; [eapply (ginv_arm res (Some (i, rid)) w m (w_sched w) (w_ready w ++ [mk_handle (w_next w) (w_now w) (TRun i)]) i _ (w_nt w) (mk_handle (w_next w) (w_now w) (TRun i)) s iv (next_due s iv d (w_now w))); try eassumption; try reflexivity | reflexivity | wsimpl; lia | wsimpl; first [assumption | symmetry; assumption] | reflexivity | reflexivity].
+           ++ rewrite app_assoc. apply Permutation_sym. apply Permutation_cons_append.
+           ++ intros h Hh. apply in_app_or in Hh. destruct Hh as [Hh|[Hh|[]]]; auto.
+           ++ intros _. wsimpl. lia.
+           ++ wsimpl. unfold next_due. rewrite Eiv. reflexivity.
+           ++ lia.
+           ++ right. exists rid. reflexivity.
+        -- apply Z.eqb_neq in Eiv. assert (Hpos : 0 < iv) by lia.
+           unfold call_at, set_tm. wsimpl.
+           set (n' := Z.max (t_n (w_tm w i) + 1) ((w_now w - s) / iv + 1)).
+           set (hn := mk_handle (w_next w) (s + n' * iv) (TRun i)).
+           eapply ginv_ext; [eapply (ginv_arm res (Some (i, rid)) w m (insert_h (c_lifo cfg) hn (w_sched w)) (w_ready w) i _ (w_nt w) hn s iv (next_due s iv d (w_now w))); try eassumption; try reflexivity | reflexivity | wsimpl; lia | wsimpl; first [assumption | symmetry; assumption] | reflexivity | reflexivity].
+           ++ apply (Permutation_app_tail (w_ready w) (insert_h_perm (c_lifo cfg) hn (w_sched w))).
+           ++ intros h Hh. right. assumption.
+           ++ intros Hh. exfalso. specialize (Hids hn). unfold handles in Hids.
+              specialize (Hids (in_or_app _ _ _ (or_intror Hh))). subst hn. cbn [hid] in Hids. lia.
+           ++ subst hn. cbn [hwhen]. rewrite (A4 Hpos). rewrite next_due_boundary by assumption. reflexivity.
+           ++ intros _. cbn [t_n]. rewrite (A4 Hpos). rewrite next_due_boundary by assumption. reflexivity.
+           ++ right. exists rid. reflexivity.
+      * (* returned false: handle.cancel() *)
+        unfold handler_cancel in E. rewrite Ed in E. cbn [fst] in E. inversion E; subst w' evs; clear E.
+        cbn [mon_run mon_step]. rewrite Hcu, Nat.eqb_refl, Hclk, Es. cbn [andb].
+        eexists. split; [reflexivity|].
+        pose proof (ginv_kill _ _ _ _ _ _ H Ed) as H1.
+        eapply ginv_ext; [eapply ginv_finish; [exact H1|] | reflexivity | wsimpl; lia | reflexivity | | reflexivity].
+        -- wsimpl. rewrite upd_same. reflexivity.
+        -- intros i0. reflexivity.
+    + (* cancelled from inside the callback: nothing is armed *)
+      inversion E; subst w' evs; clear E.
+      pose proof (dead_no_delegate _ _ _ _ _ H Ed) as Hd.
+      cbn [mon_run mon_step]. rewrite Hcu, Nat.eqb_refl, Hclk. cbn [andb].
+      eexists. split; [reflexivity|].
+      eapply ginv_ext; [eapply ginv_finish; [exact H | exact Hd] | reflexivity | wsimpl; lia | reflexivity | | reflexivity].
+      intros i0. wsimpl. unfold upd. destruct (Nat.eqb i0 i) eqn:Ei; [|reflexivity].
+      apply Nat.eqb_eq in Ei. subst i0. destruct (m_st m i); try reflexivity; discriminate.
+Qed.
+
+(* _call_periodic.run as a whole, entered from a live handle of timer i *)
+Lemma run_timer_inv res cfg fl w m h r i w' evs :
+  0 < res -> flags_fixed fl ->
+  GInv res None w m -> w_ready w = h :: r -> w_canc w (hid h) = false -> htgt h = TRun i ->
+  run_timer fl cfg i (hwhen h) (set_ready w r) = (w', evs) ->
+  exists m', mon_run false res m evs = Some m' /\ GInv res None w' m'.
+Proof.
+  intros Hres Hfl H Er Hc Ht E.
+  destruct (tick_start _ _ _ _ _ _ H Er Hc Ht) as (m1 & Hs1 & H1).
+  unfold run_timer in E. destruct Hfl as (Fg & Fc & Fm & Fr). rewrite Fr in E.
+  match type of E with context [do_action ?st ?w0] => destruct (do_action st w0) as [[w1 evs1] raised] eqn:Ea end.
+  match type of E with context [epilogue ?a ?b ?c ?st ?e ?f] => destruct (epilogue a b c st e f) as [w2 eve] eqn:Ee end.
+  inversion E; subst w' evs; clear E.
+  apply (ginv_scr _ _ _ _ (upd (w_scr (set_ready w r)) i (tl (w_scr (set_ready w r) i)))) in H1.
+  destruct (action_inv _ _ _ _ _ _ _ _ H1 Ea) as (m2 & Hs2 & H2).
+  destruct (epilogue_inv _ _ _ _ _ _ _ _ _ _ _ Hres (conj Fg (conj Fc (conj Fm Fr))) H2 Ee) as (m3 & Hs3 & H3).
+  exists m3. split; [|assumption].
+  cbn [mon_run]. wsimpl. rewrite Hs1. rewrite mon_run_app, Hs2. assumption.
+Qed.
+
+(* the handle sets may shrink by handles that are cancelled or not timer handles, and be rearranged *)
+Lemma ginv_handles res w m sched' ready' :
+  GInv res None w m ->
+  (forall h, In h (sched' ++ ready') -> In h (handles w)) ->
+  NoDup (map hid (sched' ++ ready')) ->
+  (forall h i, In h (handles w) -> htgt h = TRun i -> w_canc w (hid h) = false -> In h (sched' ++ ready')) ->
+  (forall h, In h ready' -> hwhen h - res < w_now w) ->
+  GInv res None (mk_world (w_now w) (w_next w) sched' ready' (w_canc w) (w_nt w) (w_tm w) (w_scr w) (w_bind w) (w_nver w)) m.
+Proof.
+  intros H Hsub Hn Hkeep Hr. ginv H. constructor; wsimpl; try assumption; eauto.
+  - intros i rid E. discriminate.
+  - intros i s iv d Hs. destruct (Halive i s iv d Hs) as (A & B & C & D & [(h & Hh & Ht & Hc & Hw) | (rid & E & _)]); [|discriminate].
+    repeat split; try assumption. left. exists h. repeat split; eauto.
+Qed.
+
+Lemma dc_incl c l h : In h (drop_cancelled c l) -> In h l.
+Proof.
+  induction l as [|x l IH]; cbn [drop_cancelled]; [auto|].
+  destruct (c (hid x)); [intros H; right; auto | auto].
+Qed.
+
+Lemma dc_live c l h : In h l -> c (hid h) = false -> In h (drop_cancelled c l).
+Proof.
+  induction l as [|x l IH]; cbn [drop_cancelled]; [auto|].
+  intros [->|Hin] Hc.
+  - rewrite Hc. left. reflexivity.
+  - destruct (c (hid x)); [auto | right; assumption].
+Qed.
+
+Lemma dc_suffix c l : exists pre, l = pre ++ drop_cancelled c l.
+Proof.
+  induction l as [|x l [pre IH]]; cbn [drop_cancelled]; [exists []; reflexivity|].
+  destruct (c (hid x)); [exists (x :: pre); cbn [app]; rewrite <- IH; reflexivity | exists []; reflexivity].
+Qed.
+
+Lemma dc_nil c l : drop_cancelled c l = [] -> forall h, In h l -> c (hid h) = true.
+Proof.
+  induction l as [|x l IH]; cbn [drop_cancelled]; [intros _ h []|].
+  destruct (c (hid x)) eqn:E; [|discriminate]. intros Hn h [->|Hin]; auto.
+Qed.
+
+Lemma span_due_spec endt l a b : span_due endt l = (a, b) -> l = a ++ b /\ forall h, In h a -> hwhen h < endt.
+Proof.
+  revert a b. induction l as [|x l IH]; cbn [span_due]; intros a b E.
+  - inversion E; subst. split; [reflexivity | intros h []].
+  - destruct (hwhen x <? endt) eqn:Ex.
+    + destruct (span_due endt l) as [a' b'] eqn:Es. inversion E; subst a b; clear E.
+      destruct (IH a' b' eq_refl) as [-> Hall]. split; [reflexivity|].
+      intros h [->|Hin]; [apply Z.ltb_lt; assumption | auto].
+    + inversion E; subst. split; [reflexivity | intros h []].
+Qed.
+
+Lemma nodup_app_r {A} (a b : list A) : NoDup (a ++ b) -> NoDup b.
+Proof.
+  induction a as [|x a IH]; cbn [app]; [auto|]. intros N. inversion N; subst. auto.
+Qed.
+
+Lemma ginv_drop_cancelled res w m :
+  GInv res None w m -> GInv res None (set_sched w (drop_cancelled (w_canc w) (w_sched w))) m.
+Proof.
+  intros H.
+  pose proof (ginv_handles res w m (drop_cancelled (w_canc w) (w_sched w)) (w_ready w) H) as G.
+  apply G; clear G.
+  - intros h Hh. apply in_app_or in Hh. apply in_or_app. destruct Hh as [Hh|Hh]; [left; eapply dc_incl; eauto | right; assumption].
+  - pose proof (g_nodup _ _ _ _ H) as N. unfold handles in N.
+    destruct (dc_suffix (w_canc w) (w_sched w)) as [pre Ep]. rewrite Ep in N at 1.
+    rewrite <- app_assoc, map_app in N. apply nodup_app_r in N. assumption.
+  - intros h i Hh Ht Hc. apply in_app_or in Hh. apply in_or_app. destruct Hh as [Hh|Hh]; [left; apply dc_live; assumption | right; assumption].
+  - apply (g_ready _ _ _ _ H).
+Qed.
+
+(* a handle leaves the ready queue without running a timer callback *)
+Lemma ginv_pop res w m h r :
+  GInv res None w m -> w_ready w = h :: r ->
+  (w_canc w (hid h) = true \/ forall i, htgt h <> TRun i) ->
+  GInv res None (set_ready w r) m.
+Proof.
+  intros H Er Hwhy.
+  pose proof (ginv_handles res w m (w_sched w) r H) as G. apply G; clear G.
+  - intros x Hx. unfold handles. rewrite Er. apply in_mid_inv. assumption.
+  - pose proof (g_nodup _ _ _ _ H) as N. unfold handles in N. rewrite Er in N. apply nodup_mid in N. apply N.
+  - intros x i Hx Ht Hc. unfold handles in Hx. rewrite Er in Hx. apply in_mid in Hx. destruct Hx as [->|Hx]; [|assumption].
+    exfalso. destruct Hwhy as [Hw|Hw]; [congruence | eapply Hw; eauto].
+  - intros x Hx. apply (g_ready _ _ _ _ H). rewrite Er. right. assumption.
+Qed.
+
+Lemma run_handle_inv res cfg fl w m h r w' evs :
+  0 < res -> flags_fixed fl ->
+  GInv res None w m -> w_ready w = h :: r ->
+  run_handle fl cfg h (set_ready w r) = (w', evs) ->
+  exists m', mon_run false res m evs = Some m' /\ GInv res None w' m'.
+Proof.
+  intros Hres Hfl H Er E. unfold run_handle in E.
+  change (w_canc (set_ready w r) (hid h)) with (w_canc w (hid h)) in E.
+  destruct (w_canc w (hid h)) eqn:Ec.
+  - inversion E; subst w' evs. exists m. split; [reflexivity|]. eapply ginv_pop; eauto.
+  - destruct (htgt h) as [i|j|k] eqn:Et.
+    + eapply run_timer_inv; eauto.
+    + assert (H1 : GInv res None (set_ready w r) m).
+      { eapply ginv_pop; eauto. right. intros i. congruence. }
+      destruct (sys_timerc j (set_ready w r)) as [w1 b] eqn:Es. inversion E; subst w' evs; clear E.
+      destruct (timerc_inv _ _ _ _ _ _ _ H1 Es) as (m' & Hs & Hg & _).
+      exists m'. split; [|assumption]. unfold set_ready in Hs. cbn [w_now] in Hs.
+      cbn [mon_run w_now set_ready]. rewrite Hs. reflexivity.
+    + assert (H1 : GInv res None (set_ready w r) m).
+      { eapply ginv_pop; eauto. right. intros i. congruence. }
+      inversion E; subst w' evs; clear E.
+      eexists. split; [cbn [mon_run mon_step]; reflexivity|].
+      apply (ginv_redefine _ _ _ _ k H1).
+Qed.
+
+Lemma run_ready_inv res cfg fl n : forall w m w' evs,
+  0 < res -> flags_fixed fl ->
+  GInv res None w m -> run_ready fl cfg n w = (w', evs) ->
+  exists m', mon_run false res m evs = Some m' /\ GInv res None w' m'.
+Proof.
+  induction n as [|n IH]; intros w m w' evs Hres Hfl H E; cbn [run_ready] in E.
+  - inversion E; subst. exists m. split; [reflexivity | assumption].
+  - destruct (w_ready w) as [|h r] eqn:Er.
+    + inversion E; subst. exists m. split; [reflexivity | assumption].
+    + destruct (run_handle fl cfg h (set_ready w r)) as [w1 e1] eqn:E1.
+      destruct (run_ready fl cfg n w1) as [w2 e2] eqn:E2.
+      inversion E; subst w' evs; clear E.
+      destruct (run_handle_inv _ _ _ _ _ _ _ _ _ Hres Hfl H Er E1) as (m1 & Hs1 & H1).
+      destruct (IH _ _ _ _ Hres Hfl H1 E2) as (m2 & Hs2 & H2).
+      exists m2. split; [|assumption]. rewrite mon_run_app, Hs1. assumption.
+Qed.
+
+Lemma dispatch_due_inv res cfg fl w m w' evs :
+  0 < res -> c_res cfg = res -> flags_fixed fl ->
+  GInv res None w m -> dispatch_due fl cfg w = (w', evs) ->
+  exists m', mon_run false res m evs = Some m' /\ GInv res None w' m'.
+Proof.
+  intros Hres Hc Hfl H E. unfold dispatch_due in E.
+  destruct (span_due (w_now w + c_res cfg) (w_sched w)) as [due rest] eqn:Es.
+  destruct (span_due_spec _ _ _ _ Es) as [Eapp Hdue].
+  eapply run_ready_inv; [exact Hres | exact Hfl | | exact E].
+  pose proof (ginv_handles res w m rest (w_ready w ++ due) H) as G. apply G; clear G.
+  - intros h Hh. unfold handles. rewrite Eapp. apply in_app_or in Hh. destruct Hh as [Hh|Hh].
+    + apply in_or_app. left. apply in_or_app. right. assumption.
+    + apply in_app_or in Hh. destruct Hh as [Hh|Hh]; apply in_or_app; [right; assumption | left; apply in_or_app; left; assumption].
+  - pose proof (g_nodup _ _ _ _ H) as N. unfold handles in N. rewrite Eapp in N.
+    eapply Permutation_NoDup; [|exact N]. apply Permutation_map.
+    rewrite <- app_assoc. apply Permutation_app_rot.
+  - intros h i Hh _ _. unfold handles in Hh. rewrite Eapp in Hh.
+    apply in_app_or in Hh. destruct Hh as [Hh|Hh].
+    + apply in_app_or in Hh. destruct Hh as [Hh|Hh]; apply in_or_app; [right; apply in_or_app; right; assumption | left; assumption].
+    + apply in_or_app. right. apply in_or_app. left. assumption.
+  - intros h Hh. apply in_app_or in Hh. destruct Hh as [Hh|Hh]; [apply (g_ready _ _ _ _ H); assumption|].
+    specialize (Hdue h Hh). lia.
+Qed.
+
+Lemma loop_once_inv res cfg fl lat w m w' evs :
+  0 < res -> c_res cfg = res -> flags_fixed fl ->
+  GInv res None w m -> loop_once fl cfg lat w = Some (w', evs) ->
+  exists m', mon_run false res m evs = Some m' /\ GInv res None w' m'.
+Proof.
+  intros Hres Hc Hfl H E. unfold loop_once in E.
+  pose proof (ginv_drop_cancelled _ _ _ H) as H0.
+  set (w0 := set_sched w (drop_cancelled (w_canc w) (w_sched w))) in *.
+  destruct (w_ready w0) as [|x r] eqn:Er.
+  - destruct (drop_cancelled (w_canc w) (w_sched w)) as [|h s] eqn:Ed; [discriminate|].
+    inversion E as [E']; clear E.
+    eapply dispatch_due_inv; [exact Hres | exact Hc | exact Hfl | | exact E'].
+    apply ginv_advance; [assumption | unfold w0, set_sched; cbn [w_now]; lia].
+  - inversion E as [E']; clear E.
+    eapply dispatch_due_inv; eauto.
+Qed.
+
+Lemma forallb_seq_true (f : nat -> bool) n : (forall i, (i < n)%nat -> f i = true) -> forallb f (seq 0 n) = true.
+Proof.
+  intros H. apply forallb_forall. intros i Hi. apply in_seq in Hi. apply H. lia.
+Qed.
+
+(* nothing ready, nothing scheduled: no timer is alive *)
+Lemma loop_idle_inv res cfg fl lat w m :
+  GInv res None w m -> loop_once fl cfg lat w = None ->
+  mon_step false res m EvIdle = Some m.
+Proof.
+  intros H E. unfold loop_once in E.
+  change (w_ready (set_sched w (drop_cancelled (w_canc w) (w_sched w)))) with (w_ready w) in E.
+  destruct (w_ready w) as [|x r] eqn:Er; [|discriminate].
+  destruct (drop_cancelled (w_canc w) (w_sched w)) as [|h s] eqn:Ed; [|discriminate].
+  cbn [mon_step]. rewrite (g_cur _ _ _ _ H). cbn [option_map is_none andb].
+  replace (no_alive m) with true; [reflexivity|]. symmetry. unfold no_alive.
+  apply forallb_seq_true. intros i _.
+  destruct (m_st m i) as [|s0 iv d|] eqn:Es; try reflexivity. exfalso.
+  destruct (g_alive _ _ _ _ H i s0 iv d Es) as (_ & _ & _ & _ & [(h & Hh & Ht & Hcn & _) | (rid & E' & _)]); [|discriminate].
+  unfold handles in Hh. rewrite Er, app_nil_r in Hh.
+  rewrite (dc_nil _ _ Ed h Hh) in Hcn. discriminate.
+Qed.
+
+Lemma run_loop_inv res cfg fl fuel : forall lats w m w' evs,
+  0 < res -> c_res cfg = res -> flags_fixed fl ->
+  GInv res None w m -> run_loop fl cfg fuel lats w = (w', evs) ->
+  mon_run false res m evs <> None.
+Proof.
+  induction fuel as [|f IH]; intros lats w m w' evs Hres Hc Hfl H E; cbn [run_loop] in E.
+  - inversion E; subst. cbn [mon_run]. discriminate.
+  - match type of E with context [loop_once ?a ?b ?l ?w] => destruct (loop_once a b l w) as [[w1 e1]|] eqn:El end.
+    + match type of E with context [run_loop ?a ?b ?c ?l ?w] => destruct (run_loop a b c l w) as [w2 e2] eqn:E2 end.
+      inversion E; subst w' evs; clear E.
+      destruct (loop_once_inv _ _ _ _ _ _ _ _ Hres Hc Hfl H El) as (m1 & Hs1 & H1).
+      rewrite mon_run_app, Hs1. eapply IH; eauto.
+    + inversion E; subst w' evs; clear E.
+      cbn [mon_run]. rewrite (loop_idle_inv _ _ _ _ _ _ H El). discriminate.
+Qed.
+
+(* ---- setting an experiment up -------------------------------------------------- *)
+Lemma ginv_world0 res t0 : GInv res None (world0 t0) (mstate0 t0).
+Proof.
+  constructor; unfold world0, mstate0, handles; cbn; try reflexivity; try lia; try constructor; try (intros; contradiction); try (intros; discriminate); auto.
+Qed.
+
+Lemma ginv_arm_ext res cfg w m t x :
+  GInv res None w m -> GInv res None (fst (call_at cfg t (ext_target x) w)) m.
+Proof.
+  intros H. unfold call_at. cbn [fst].
+  set (hn := mk_handle (w_next w) t (ext_target x)).
+  assert (HP : Permutation (insert_h (c_lifo cfg) hn (w_sched w) ++ w_ready w) (hn :: handles w)).
+  { apply (Permutation_app_tail (w_ready w) (insert_h_perm (c_lifo cfg) hn (w_sched w))). }
+  ginv H.
+  assert (HIn : forall h, In h (insert_h (c_lifo cfg) hn (w_sched w) ++ w_ready w) -> h = hn \/ In h (handles w)).
+  { intros h Hh. pose proof (Permutation_in _ HP Hh) as [E|E]; auto. }
+  assert (HIn' : forall h, In h (handles w) -> In h (insert_h (c_lifo cfg) hn (w_sched w) ++ w_ready w)).
+  { intros h Hh. apply (Permutation_in _ (Permutation_sym HP)). right. assumption. }
+  assert (Hnt : forall i, htgt hn <> TRun i) by (intros i; subst hn; cbn [htgt]; destruct x; discriminate).
+  constructor; wsimpl; try assumption.
+  - intros h Hh. destruct (HIn h Hh) as [->|Ho]; [subst hn; cbn [hid]; lia|]. specialize (Hids h Ho). lia.
+  - apply (Permutation_NoDup (Permutation_sym (Permutation_map hid HP))). cbn [map]. constructor; [|assumption].
+    intros Hc. apply in_map_iff in Hc. destruct Hc as (h & E & Hh). specialize (Hids h Hh). subst hn. cbn [hid] in E. lia.
+  - intros h i Hh Ht. destruct (HIn h Hh) as [->|Ho]; [exfalso; eapply Hnt; eauto|]. eauto.
+  - intros h i Hh Ht Hc. destruct (HIn h Hh) as [->|Ho]; [exfalso; eapply Hnt; eauto|]. eauto.
+  - intros i rid E. discriminate.
+  - intros i s iv d Hs. destruct (Halive i s iv d Hs) as (A & B & C & D & [(h & Hh & E) | (rid & E & _)]); [|discriminate].
+    repeat split; try assumption. left. exists h. split; [apply HIn'; assumption | assumption].
+  - intros id Hi. apply Hfresh. lia.
+Qed.
+
+Lemma arm_exts_inv res cfg xs : forall w m, GInv res None w m -> GInv res None (arm_exts cfg xs w) m.
+Proof.
+  induction xs as [|[t x] xs IH]; intros w m H; cbn [arm_exts]; [assumption|].
+  apply IH. apply ginv_arm_ext. assumption.
+Qed.
+
+(* _call_periodic: the first arming *)
+Lemma create_timer_inv res cfg iv w m w' evs :
+  0 < res -> 0 <= iv -> GInv res None w m -> create_timer cfg iv w = (w', evs) ->
+  exists m', mon_run false res m evs = Some m' /\ GInv res None w' m'.
+Proof.
+  intros Hres Hiv H E. unfold create_timer in E.
+  pose proof H as H0. ginv H0. cbn [option_map] in Hcur.
+  assert (Hno : forall h, In h (handles w) -> htgt h = TRun (w_nt w) -> w_canc w (hid h) = true).
+  { intros h Hh Ht. specialize (Htgt h _ Hh Ht). lia. }
+  assert (Hstep : forall t st', m_clock m <= t ->
+     mon_step false res m (EvCreate (w_nt w) t iv) =
+     Some (mk_mstate t None (upd (m_st m) (w_nt w) (TAlive t iv (t + iv))) (m_ver m) (S (m_count m))) \/ st' = 0).
+  { intros t st' Ht. left. cbn [mon_step]. rewrite Hcur, Hcount, Nat.eqb_refl.
+    replace (m_clock m <=? t) with true by (symmetry; apply Z.leb_le; assumption).
+    replace (0 <=? iv) with true by (symmetry; apply Z.leb_le; assumption). reflexivity. }
+  destruct (Hstep (w_now w) 1 Hclock) as [Hs|Hs]; [|discriminate]. clear Hstep.
+  destruct (iv =? 0) eqn:Eiv.
+  - apply Z.eqb_eq in Eiv. unfold call_soon in E. inversion E; subst w' evs; clear E.
+    cbn [mon_run]. rewrite Hs. eexists. split; [reflexivity|].
+    unfold add_timer. wsimpl. rewrite Hcount.
+    eapply ginv_ext; [eapply (ginv_arm res None w m (w_sched w) (w_ready w ++ [mk_handle (w_next w) (w_now w) (TRun (w_nt w))]) (w_nt w) _ (S (w_nt w)) (mk_handle (w_next w) (w_now w) (TRun (w_nt w))) (w_now w) iv (w_now w + iv)); try eassumption; try reflexivity | reflexivity | wsimpl; lia | reflexivity | reflexivity | reflexivity].
+    + rewrite app_assoc. apply Permutation_sym. apply Permutation_cons_append.
+    + intros h Hh. apply in_app_or in Hh. destruct Hh as [Hh|[Hh|[]]]; auto.
+    + intros _. wsimpl. lia.
+    + wsimpl. lia.
+    + intros Hp. lia.
+    + lia.
+    + lia.
+    + left. reflexivity.
+  - apply Z.eqb_neq in Eiv. unfold call_at in E. inversion E; subst w' evs; clear E.
+    cbn [mon_run]. rewrite Hs. eexists. split; [reflexivity|].
+    unfold add_timer. wsimpl. rewrite Hcount.
+    set (hn := mk_handle (w_next w) (w_now w + iv) (TRun (w_nt w))).
+    eapply ginv_ext; [eapply (ginv_arm res None w m (insert_h (c_lifo cfg) hn (w_sched w)) (w_ready w) (w_nt w) _ (S (w_nt w)) hn (w_now w) iv (w_now w + iv)); try eassumption; try reflexivity | reflexivity | wsimpl; lia | reflexivity | reflexivity | reflexivity].
+    + apply (Permutation_app_tail (w_ready w) (insert_h_perm (c_lifo cfg) hn (w_sched w))).
+    + intros h Hh. right. assumption.
+    + intros Hh. exfalso. specialize (Hids hn). unfold handles in Hids.
+      specialize (Hids (in_or_app _ _ _ (or_intror Hh))). subst hn. cbn [hid] in Hids. lia.
+    + intros _. wsimpl. lia.
+    + lia.
+    + lia.
+    + left. reflexivity.
+Qed.
+
+Lemma create_all_inv res cfg ts : forall w m w' evs,
+  0 < res -> GInv res None w m -> create_all cfg ts w = (w', evs) ->
+  exists m', mon_run false res m evs = Some m' /\ GInv res None w' m'.
+Proof.
+  induction ts as [|s ts IH]; intros w m w' evs Hres H E; cbn [create_all] in E.
+  - inversion E; subst. exists m. split; [reflexivity | assumption].
+  - set (w1 := set_now w (w_now w + Z.max 0 (ts_gap s))) in *.
+    assert (H1 : GInv res None w1 m) by (apply ginv_advance; [assumption | lia]).
+    destruct (ts_interval s <? 0) eqn:En.
+    + eapply IH; eauto.
+    + apply Z.ltb_ge in En.
+      match type of E with context [create_timer cfg ?iv ?w2] => destruct (create_timer cfg iv w2) as [w3 e1] eqn:E1 end.
+      destruct (create_all cfg ts w3) as [w4 e2] eqn:E2.
+      inversion E; subst w' evs; clear E.
+      apply (ginv_scr _ _ _ _ (upd (w_scr w1) (w_nt w1) (ts_script s))) in H1.
+      destruct (create_timer_inv _ _ _ _ _ _ _ Hres En H1 E1) as (m1 & Hs1 & H2).
+      destruct (IH _ _ _ _ Hres H2 E2) as (m2 & Hs2 & H3).
+      exists m2. split; [|assumption]. rewrite mon_run_app, Hs1. assumption.
+Qed.
+
+(* ---- the main theorem: every history of the model is accepted by the checker ------ *)
+Theorem simulate_accepted fl cfg t0 xs ts lats fuel :
+  flags_fixed fl -> 0 < c_res cfg ->
+  accepted false (c_res cfg) t0 (snd (simulate fl cfg t0 xs ts lats fuel)).
+Proof.
+  intros Hfl Hres. unfold accepted, simulate.
+  destruct (create_all cfg ts (arm_exts cfg xs (world0 t0))) as [w1 e1] eqn:E1.
+  destruct (run_loop fl cfg fuel lats w1) as [w2 e2] eqn:E2.
+  cbn [snd].
+  pose proof (arm_exts_inv (c_res cfg) cfg xs _ _ (ginv_world0 (c_res cfg) t0)) as H0.
+  destruct (create_all_inv _ _ _ _ _ _ _ Hres H0 E1) as (m1 & Hs1 & H1).
+  rewrite mon_run_app, Hs1.
+  eapply run_loop_inv; eauto.
+Qed.
+
+(* ---- what acceptance by the checker means ------------------------------------------ *)
+Definition mwf (m : mstate) : Prop :=
+  (forall i, m_st m i <> TNone -> (i < m_count m)%nat) /\ (forall i, m_cur m = Some i -> (i < m_count m)%nat).
+
+Lemma mwf0 t0 : mwf (mstate0 t0).
+Proof. split; cbn; intros; congruence. Qed.
+
+Ltac step_cases E :=
+  match type of E with
+  | (if ?c then _ else _) = Some _ => let C := fresh "C" in destruct c eqn:C; [|discriminate]
+  end.
+
+Lemma mwf_step strict res m e m' : mwf m -> mon_step strict res m e = Some m' -> mwf m'.
+Proof.
+  intros [W1 W2] E. destruct e as [i t iv|i t due v|i t o|j t r|k v|]; cbn [mon_step] in E.
+  - step_cases E. inversion E; subst m'; clear E. repeat (apply andb_prop in C; destruct C as [C ?]).
+    apply Nat.eqb_eq in H0. subst i.
+    split; cbn; [|intros; discriminate]. intros i Hi. unfold upd in Hi. destruct (Nat.eqb i (m_count m)) eqn:Ei.
+    + apply Nat.eqb_eq in Ei. lia.
+    + specialize (W1 i Hi). lia.
+  - destruct (m_cur m) eqn:Ec; [discriminate|]. destruct (m_st m i) as [|s iv d|] eqn:Es; try discriminate.
+    step_cases E. inversion E; subst m'; clear E. split; cbn; [assumption|].
+    intros i0 Hi. inversion Hi; subst i0. apply W1. congruence.
+  - destruct (m_cur m) as [c|] eqn:Ec; [|discriminate]. step_cases E. inversion E; subst m'; clear E.
+    apply andb_prop in C. destruct C as [C _]. apply Nat.eqb_eq in C. subst c.
+    split; cbn; [|intros; discriminate]. intros i0 Hi. unfold upd in Hi. destruct (Nat.eqb i0 i) eqn:Ei.
+    + apply Nat.eqb_eq in Ei. subst i0. apply W2. reflexivity.
+    + auto.
+  - step_cases E. inversion E; subst m'; clear E. split; cbn; [|assumption].
+    intros i Hi. destruct (is_alive (m_st m j)) eqn:Ea; [|auto].
+    unfold upd in Hi. destruct (Nat.eqb i j) eqn:Ei; [|auto].
+    apply Nat.eqb_eq in Ei. subst i. apply W1. destruct (m_st m j); discriminate.
+  - inversion E; subst m'. split; cbn; assumption.
+  - step_cases E. inversion E; subst m'. split; assumption.
+Qed.
+
+Lemma mwf_run strict res tr : forall m m', mwf m -> mon_run strict res m tr = Some m' -> mwf m'.
+Proof.
+  induction tr as [|e tr IH]; intros m m' W E; cbn [mon_run] in E; [inversion E; subst; assumption|].
+  destruct (mon_step strict res m e) as [m1|] eqn:Es; [|discriminate]. eapply IH; [eapply mwf_step; eauto | eauto].
+Qed.
+
+(* timer i has been stopped: callback returned false or raised, or .timerc returned 1 for it *)
+Definition stops (i : nat) (e : event) : Prop :=
+  match e with
+  | EvCancel j _ true => j = i
+  | EvEnd j _ RetFalse => j = i
+  | EvEnd j _ Raised => j = i
+  | _ => False
+  end.
+
+Definition stopped (m : mstate) (i : nat) : Prop := is_alive (m_st m i) = false /\ (i < m_count m)%nat.
+
+Lemma stop_event strict res m e m' i : mwf m -> mon_step strict res m e = Some m' -> stops i e -> stopped m' i.
+Proof.
+  intros [W1 W2] E S. destruct e as [? ? ?|? ? ? ?|j t o|j t r|? ?|]; cbn [stops] in S; try contradiction.
+  - cbn [mon_step] in E. destruct (m_cur m) as [c|] eqn:Ec; [|discriminate]. step_cases E. inversion E; subst m'; clear E.
+    apply andb_prop in C. destruct C as [C _]. apply Nat.eqb_eq in C. subst c.
+    assert (j = i) by (destruct o; auto; contradiction). subst j.
+    split; cbn; [|apply W2; reflexivity]. rewrite upd_same. destruct (m_st m i), o; try reflexivity; contradiction.
+  - destruct r; [|contradiction]. subst j. cbn [mon_step] in E. step_cases E. inversion E; subst m'; clear E.
+    apply andb_prop in C. destruct C as [_ C]. apply eqb_prop in C. rewrite <- C.
+    split; cbn; [rewrite upd_same; reflexivity|]. apply W1. destruct (m_st m i); discriminate.
+Qed.
+
+Lemma stopped_step strict res m e m' i :
+  stopped m i -> mon_step strict res m e = Some m' ->
+  stopped m' i /\ (forall t d v, e <> EvTick i t d v) /\ (forall t, e <> EvCancel i t true).
+Proof.
+  intros [S1 S2] E. destruct e as [i0 t iv|i0 t due v|i0 t o|j t r|k v|]; cbn [mon_step] in E.
+  - step_cases E. inversion E; subst m'; clear E. repeat (apply andb_prop in C; destruct C as [C ?]).
+    apply Nat.eqb_eq in H0. subst i0. repeat split; cbn; try discriminate; try lia.
+    rewrite upd_other by lia. assumption.
+  - destruct (m_cur m) eqn:Ec; [discriminate|]. destruct (m_st m i0) as [|s iv d|] eqn:Es; try discriminate.
+    step_cases E. inversion E; subst m'; clear E. repeat split; cbn; try assumption; try discriminate.
+    intros t0 d0 v0 Ee. inversion Ee; subst. rewrite Es in S1. discriminate.
+  - destruct (m_cur m) as [c|] eqn:Ec; [|discriminate]. step_cases E. inversion E; subst m'; clear E.
+    repeat split; cbn; try assumption; try discriminate.
+    unfold upd. destruct (Nat.eqb i i0) eqn:Ei; [|assumption]. apply Nat.eqb_eq in Ei. subst i0.
+    destruct (m_st m i); try reflexivity; discriminate.
+  - step_cases E. inversion E; subst m'; clear E. apply andb_prop in C. destruct C as [_ C]. apply eqb_prop in C.
+    repeat split; cbn; try assumption; try discriminate.
+    + destruct (is_alive (m_st m j)); [|assumption]. unfold upd. destruct (Nat.eqb i j); [reflexivity | assumption].
+    + intros t0 Ee. inversion Ee; subst. congruence.
+  - inversion E; subst m'. repeat split; cbn; try assumption; discriminate.
+  - step_cases E. inversion E; subst m'. repeat split; try assumption; discriminate.
+Qed.
+
+Lemma stopped_run strict res i tr : forall m, stopped m i -> mon_run strict res m tr <> None ->
+  (forall t d v, ~ In (EvTick i t d v) tr) /\ (forall t, ~ In (EvCancel i t true) tr).
+Proof.
+  induction tr as [|e tr IH]; intros m S E; [split; intros; intros []|].
+  cbn [mon_run] in E. destruct (mon_step strict res m e) as [m1|] eqn:Es; [|congruence].
+  destruct (stopped_step _ _ _ _ _ _ S Es) as (S1 & N1 & N2).
+  destruct (IH m1 S1 E) as [I1 I2].
+  split.
+  - intros t d v [Hh|Hh]; [apply (N1 _ _ _ Hh) | apply (I1 _ _ _ Hh)].
+  - intros t [Hh|Hh]; [apply (N2 _ Hh) | apply (I2 _ Hh)].
+Qed.
+
+(* never again: after the stopping event no tick of that timer, and no second successful .timerc *)
+Theorem no_tick_after_stop strict res t0 a e b i :
+  accepted strict res t0 (a ++ e :: b) -> stops i e ->
+  (forall t d v, ~ In (EvTick i t d v) b) /\ (forall t, ~ In (EvCancel i t true) b).
+Proof.
+  unfold accepted. intros A S. rewrite mon_run_app in A.
+  destruct (mon_run strict res (mstate0 t0) a) as [m1|] eqn:E1; [|congruence].
+  cbn [mon_run] in A. destruct (mon_step strict res m1 e) as [m2|] eqn:E2; [|congruence].
+  eapply stopped_run; [|exact A].
+  eapply stop_event; [eapply mwf_run; [apply mwf0 | exact E1] | exact E2 | exact S].
+Qed.
+
+(* never overlapping: while a callback runs no callback starts *)
+Lemma cur_persists strict res i mid : forall m m',
+  m_cur m = Some i -> (forall t o, ~ In (EvEnd i t o) mid) -> mon_run strict res m mid = Some m' -> m_cur m' = Some i.
+Proof.
+  induction mid as [|e mid IH]; intros m m' Hc Hn E; cbn [mon_run] in E; [inversion E; subst; assumption|].
+  destruct (mon_step strict res m e) as [m1|] eqn:Es; [|discriminate].
+  eapply IH; [| intros t o Hin; eapply Hn; right; exact Hin | exact E].
+  destruct e as [i0 t iv|i0 t due v|i0 t o|j t r|k v|]; cbn [mon_step] in Es.
+  - rewrite Hc in Es. cbn [is_none] in Es. rewrite andb_false_r in Es. discriminate.
+  - rewrite Hc in Es. discriminate.
+  - rewrite Hc in Es. step_cases Es. apply andb_prop in C. destruct C as [C _]. apply Nat.eqb_eq in C. subst i0.
+    exfalso. eapply Hn. left. reflexivity.
+  - step_cases Es. inversion Es; subst m1. assumption.
+  - inversion Es; subst m1. assumption.
+  - rewrite Hc in Es. discriminate.
+Qed.
+
+Theorem no_overlap strict res t0 a i t d v mid j t' d' v' b :
+  accepted strict res t0 (a ++ EvTick i t d v :: mid ++ EvTick j t' d' v' :: b) ->
+  exists te o, In (EvEnd i te o) mid.
+Proof.
+  unfold accepted. intros A. rewrite mon_run_app in A.
+  destruct (mon_run strict res (mstate0 t0) a) as [m1|] eqn:E1; [|congruence].
+  cbn [mon_run] in A. destruct (mon_step strict res m1 (EvTick i t d v)) as [m2|] eqn:E2; [|congruence].
+  rewrite mon_run_app in A. destruct (mon_run strict res m2 mid) as [m3|] eqn:E3; [|congruence].
+  assert (Hc2 : m_cur m2 = Some i).
+  { cbn [mon_step] in E2. destruct (m_cur m1); [discriminate|]. destruct (m_st m1 i); try discriminate.
+    step_cases E2. inversion E2; subst m2. reflexivity. }
+  assert (Hdec : (exists te o, In (EvEnd i te o) mid) \/ (forall te o, ~ In (EvEnd i te o) mid)).
+  { clear. induction mid as [|e mid [IH|IH]].
+    - right. intros te o [].
+    - left. destruct IH as (te & o & H). exists te, o. right. assumption.
+    - destruct e as [| |i0 t0 o0| | |]; try (right; intros te o [H|H]; [discriminate | eapply IH; eauto]).
+      destruct (Nat.eq_dec i0 i) as [->|Hne].
+      + left. exists t0, o0. left. reflexivity.
+      + right. intros te o [H|H]; [inversion H; contradiction | eapply IH; eauto]. }
+  destruct Hdec as [Hex|Hno]; [assumption|]. exfalso.
+  pose proof (cur_persists _ _ _ _ _ _ Hc2 Hno E3) as Hc3.
+  cbn [mon_run mon_step] in A. rewrite Hc3 in A. congruence.
+Qed.
+
+(* an alive timer carries the start time and interval of its .timer call *)
+Lemma alive_created strict res t0 pre : forall m, mon_run strict res (mstate0 t0) pre = Some m ->
+  forall i s iv d, m_st m i = TAlive s iv d -> In (EvCreate i s iv) pre.
+Proof.
+  induction pre as [|e pre IH] using rev_ind; intros m E i s iv d Hs.
+  - cbn in E. inversion E; subst m. cbn in Hs. discriminate.
+  - rewrite mon_run_app in E. destruct (mon_run strict res (mstate0 t0) pre) as [m1|] eqn:E1; [|discriminate].
+    cbn [mon_run] in E. destruct (mon_step strict res m1 e) as [m2|] eqn:E2; [|discriminate]. inversion E; subst m2; clear E.
+    apply in_or_app.
+    assert (Hold : forall d', m_st m1 i = TAlive s iv d' -> In (EvCreate i s iv) pre \/ In (EvCreate i s iv) [e]).
+    { intros d' H'. left. eapply IH; eauto. }
+    destruct e as [i0 t iv0|i0 t due v|i0 t o|j t r|k v|]; cbn [mon_step] in E2.
+    + step_cases E2. inversion E2; subst m; clear E2. cbn [m_st] in Hs. unfold upd in Hs.
+      destruct (Nat.eqb i i0) eqn:Ei; [|eauto]. apply Nat.eqb_eq in Ei. subst i0. inversion Hs; subst. right. left. reflexivity.
+    + destruct (m_cur m1); [discriminate|]. destruct (m_st m1 i0); try discriminate. step_cases E2. inversion E2; subst m. eauto.
+    + destruct (m_cur m1); [|discriminate]. step_cases E2. inversion E2; subst m; clear E2. cbn [m_st] in Hs. unfold upd in Hs.
+      destruct (Nat.eqb i i0) eqn:Ei; [|eauto]. apply Nat.eqb_eq in Ei. subst i0.
+      destruct (m_st m1 i) as [|s1 iv1 d1|] eqn:Es1; try discriminate.
+      destruct o; try discriminate. inversion Hs; subst. eauto.
+    + step_cases E2. inversion E2; subst m; clear E2. cbn [m_st] in Hs.
+      destruct (is_alive (m_st m1 j)); [|eauto]. unfold upd in Hs. destruct (Nat.eqb i j); [discriminate | eauto].
+    + inversion E2; subst m. eauto.
+    + step_cases E2. inversion E2; subst m. eauto.
+Qed.
+
+(* phases of timer i between two of its ticks *)
+Inductive phase := PhA | PhB (te : Z) | PhD.
+
+Definition holds (i : nat) (s iv d1 t1 : Z) (p : phase) (m : mstate) : Prop :=
+  match p with
+  | PhA => m_cur m = Some i /\ t1 <= m_clock m /\ (m_st m i = TAlive s iv d1 \/ is_alive (m_st m i) = false)
+  | PhB te => m_cur m <> Some i /\ (i < m_count m)%nat /\ m_st m i = TAlive s iv (next_due s iv d1 te)
+  | PhD => m_cur m <> Some i /\ stopped m i
+  end.
+
+Definition trans_ok (i : nat) (t1 : Z) (p p' : phase) (seen : list event) : Prop :=
+  match p, p' with
+  | PhA, PhB te => In (EvEnd i te RetTrue) seen /\ t1 <= te
+  | PhB te, PhB te' => te = te'
+  | PhB _, PhA => False
+  | PhD, PhA => False
+  | PhD, PhB _ => False
+  | _, _ => True
+  end.
+
+Lemma phase_step strict res i s iv d1 t1 p m e m' :
+  mwf m -> holds i s iv d1 t1 p m -> mon_step strict res m e = Some m' ->
+  (forall t d v, e <> EvTick i t d v) ->
+  exists p', holds i s iv d1 t1 p' m' /\ trans_ok i t1 p p' [e].
+Proof.
+  intros W H E Hnt. pose proof W as [W1 W2]. destruct p as [|te|].
+  - destruct H as (Hc & Hk & Hst).
+    destruct e as [i0 t iv0|i0 t due v|i0 t o|j t r|k v|]; cbn [mon_step] in E.
+    + rewrite Hc in E. cbn [is_none] in E. rewrite andb_false_r in E. discriminate.
+    + rewrite Hc in E. discriminate.
+    + rewrite Hc in E. step_cases E. inversion E; subst m'; clear E.
+      apply andb_prop in C. destruct C as [C1 C2]. apply Nat.eqb_eq in C1. subst i0. apply Z.leb_le in C2.
+      destruct Hst as [Hst|Hst].
+      * rewrite Hst. destruct o.
+        -- exists (PhB t). split; [|split; [left; reflexivity | lia]].
+           unfold holds, stopped; cbn [m_cur m_st m_count m_clock]. rewrite upd_same. split; [discriminate|]. split; [apply W2; assumption | reflexivity].
+        -- exists PhD. split; [|exact I]. unfold holds, stopped; cbn [m_cur m_st m_count m_clock]. split; [discriminate|]. split; [rewrite upd_same; reflexivity | apply W2; assumption].
+        -- exists PhD. split; [|exact I]. unfold holds, stopped; cbn [m_cur m_st m_count m_clock]. split; [discriminate|]. split; [rewrite upd_same; reflexivity | apply W2; assumption].
+      * exists PhD. split; [|exact I]. unfold holds, stopped; cbn [m_cur m_st m_count m_clock]. split; [discriminate|]. split; [|apply W2; assumption].
+        rewrite upd_same. destruct (m_st m i); try reflexivity; discriminate.
+    + step_cases E. inversion E; subst m'; clear E. apply andb_prop in C. destruct C as [C1 C2]. apply Z.leb_le in C1.
+      exists PhA. split; [|exact I]. unfold holds, stopped; cbn [m_cur m_st m_count m_clock]. split; [assumption|]. split; [lia|].
+      destruct (is_alive (m_st m j)) eqn:Ea; [|assumption].
+      unfold upd. destruct (Nat.eqb i j); [right; reflexivity | assumption].
+    + inversion E; subst m'. exists PhA. split; [|exact I]. unfold holds, stopped; cbn [m_cur m_st m_count m_clock]. auto.
+    + rewrite Hc in E. discriminate.
+  - destruct H as (Hc & Hlt & Hst).
+    destruct e as [i0 t iv0|i0 t due v|i0 t o|j t r|k v|]; cbn [mon_step] in E.
+    + step_cases E. inversion E; subst m'; clear E. repeat (apply andb_prop in C; destruct C as [C ?]).
+      apply Nat.eqb_eq in H0. subst i0. exists (PhB te). split; [|reflexivity]. cbn.
+      split; [discriminate|]. split; [lia|]. rewrite upd_other by lia. assumption.
+    + destruct (m_cur m) eqn:Ec; [discriminate|]. destruct (m_st m i0) as [|s0 iv1 d0|] eqn:Es; try discriminate.
+      step_cases E. inversion E; subst m'; clear E. exists (PhB te). split; [|reflexivity]. cbn.
+      split; [|split; assumption]. intros Hx. inversion Hx; subst i0. eapply Hnt. reflexivity.
+    + destruct (m_cur m) as [c|] eqn:Ec; [|discriminate]. step_cases E. inversion E; subst m'; clear E.
+      apply andb_prop in C. destruct C as [C _]. apply Nat.eqb_eq in C. subst c.
+      exists (PhB te). split; [|reflexivity]. unfold holds, stopped; cbn [m_cur m_st m_count m_clock]. split; [discriminate|]. split; [assumption|].
+      rewrite upd_other; [assumption|]. intros ->. apply Hc. reflexivity.
+    + step_cases E. inversion E; subst m'; clear E.
+      destruct (Nat.eq_dec j i) as [->|Hne].
+      * rewrite Hst. cbn [is_alive]. exists PhD. split; [|exact I]. unfold holds, stopped; cbn [m_cur m_st m_count m_clock]. split; [assumption|]. split; [rewrite upd_same; reflexivity | assumption].
+      * exists (PhB te). split; [|reflexivity]. unfold holds, stopped; cbn [m_cur m_st m_count m_clock]. split; [assumption|]. split; [assumption|].
+        destruct (is_alive (m_st m j)); [rewrite upd_other by auto|]; assumption.
+    + inversion E; subst m'. exists (PhB te). split; [|reflexivity]. unfold holds, stopped; cbn [m_cur m_st m_count m_clock]. auto.
+    + step_cases E. inversion E; subst m'. exists (PhB te). split; [|reflexivity]. unfold holds, stopped; cbn [m_cur m_st m_count m_clock]. auto.
+  - destruct H as (Hc & Hsd).
+    destruct (stopped_step _ _ _ _ _ _ Hsd E) as (Hsd' & _ & _).
+    exists PhD. split; [|exact I]. unfold holds, stopped; cbn [m_cur m_st m_count m_clock]. split; [|assumption].
+    destruct e as [i0 t iv0|i0 t due v|i0 t o|j t r|k v|]; cbn [mon_step] in E.
+    + step_cases E. inversion E; subst m'. unfold holds, stopped; cbn [m_cur m_st m_count m_clock]. discriminate.
+    + destruct (m_cur m) eqn:Ec; [discriminate|]. destruct (m_st m i0) as [|s0 iv1 d0|] eqn:Es; try discriminate.
+      step_cases E. inversion E; subst m'; clear E. unfold holds, stopped; cbn [m_cur m_st m_count m_clock]. intros Hx. inversion Hx; subst i0. eapply Hnt. reflexivity.
+    + destruct (m_cur m) as [c|] eqn:Ec; [|discriminate]. step_cases E. inversion E; subst m'. unfold holds, stopped; cbn [m_cur m_st m_count m_clock]. discriminate.
+    + step_cases E. inversion E; subst m'. unfold holds, stopped; cbn [m_cur m_st m_count m_clock]. assumption.
+    + inversion E; subst m'. unfold holds, stopped; cbn [m_cur m_st m_count m_clock]. assumption.
+    + step_cases E. inversion E; subst m'. assumption.
+Qed.
+
+Lemma trans_ok_app i t1 p p' p'' a b :
+  trans_ok i t1 p p' a -> trans_ok i t1 p' p'' b -> trans_ok i t1 p p'' (a ++ b).
+Proof.
+  destruct p, p', p''; cbn; intros H1 H2; try exact I; try contradiction; try (subst; auto; fail).
+  - destruct H2 as [H2 H3]. split; [apply in_or_app; right|]; assumption.
+  - destruct H1 as [H1 H3]. subst. split; [apply in_or_app; left|]; assumption.
+Qed.
+
+Lemma phase_run strict res i s iv d1 t1 mid : forall p m m',
+  mwf m -> holds i s iv d1 t1 p m -> mon_run strict res m mid = Some m' ->
+  (forall t d v, ~ In (EvTick i t d v) mid) ->
+  exists p', holds i s iv d1 t1 p' m' /\ trans_ok i t1 p p' mid.
+Proof.
+  induction mid as [|e mid IH]; intros p m m' W H E Hnt.
+  - cbn in E. inversion E; subst m'. exists p. split; [assumption|]. destruct p; cbn; auto.
+  - cbn [mon_run] in E. destruct (mon_step strict res m e) as [m1|] eqn:Es; [|discriminate].
+    destruct (phase_step _ _ _ _ _ _ _ _ _ _ _ W H Es) as (p1 & H1 & T1).
+    { intros t d v Hx. eapply Hnt. left. exact Hx. }
+    destruct (IH p1 m1 m' (mwf_step _ _ _ _ _ W Es) H1 E) as (p2 & H2 & T2).
+    { intros t d v Hx. eapply Hnt. right. exact Hx. }
+    exists p2. split; [assumption|]. apply (trans_ok_app _ _ _ _ _ [e] mid T1 T2).
+Qed.
+
+Lemma tick_step_inv strict res m i t due v m' :
+  mon_step strict res m (EvTick i t due v) = Some m' ->
+  exists s iv, m_cur m = None /\ m_st m i = TAlive s iv due /\ m_clock m <= t /\
+               m' = mk_mstate t (Some i) (m_st m) (m_ver m) (m_count m).
+Proof.
+  cbn [mon_step]. intros E. destruct (m_cur m) eqn:Ec; [discriminate|].
+  destruct (m_st m i) as [|s iv d|] eqn:Es; try discriminate.
+  destruct (m_clock m <=? t) eqn:C1; [|discriminate]. destruct (due =? d) eqn:C2; [|discriminate].
+  cbn [andb] in E. step_cases E. inversion E; subst m'.
+  apply Z.eqb_eq in C2. subst d. apply Z.leb_le in C1. exists s, iv. auto.
+Qed.
+
+(* once per elapsed interval, skipping what was missed: two consecutive ticks of a timer are separated by
+   the end of the first callback with a true result, and the second tick serves exactly next_due *)
+Theorem consecutive_ticks strict res t0 a i t1 d1 v1 mid t2 d2 v2 b :
+  accepted strict res t0 (a ++ EvTick i t1 d1 v1 :: mid ++ EvTick i t2 d2 v2 :: b) ->
+  (forall t d v, ~ In (EvTick i t d v) mid) ->
+  exists s iv te, In (EvCreate i s iv) a /\ In (EvEnd i te RetTrue) mid /\ t1 <= te /\ d2 = next_due s iv d1 te.
+Proof.
+  unfold accepted. intros A Hnt. rewrite mon_run_app in A.
+  destruct (mon_run strict res (mstate0 t0) a) as [m1|] eqn:E1; [|congruence].
+  cbn [mon_run] in A. destruct (mon_step strict res m1 (EvTick i t1 d1 v1)) as [m2|] eqn:E2; [|congruence].
+  rewrite mon_run_app in A. destruct (mon_run strict res m2 mid) as [m3|] eqn:E3; [|congruence].
+  cbn [mon_run] in A. destruct (mon_step strict res m3 (EvTick i t2 d2 v2)) as [m4|] eqn:E4; [|congruence].
+  pose proof (mwf_run _ _ _ _ _ (mwf0 t0) E1) as W1.
+  pose proof (mwf_step _ _ _ _ _ W1 E2) as W2.
+  destruct (tick_step_inv _ _ _ _ _ _ _ _ E2) as (s & iv & Hc1 & Hs1 & Hk1 & ->).
+  destruct (tick_step_inv _ _ _ _ _ _ _ _ E4) as (s3 & iv3 & Hc3 & Hs3 & Hk3 & _).
+  assert (HA : holds i s iv d1 t1 PhA (mk_mstate t1 (Some i) (m_st m1) (m_ver m1) (m_count m1))).
+  { unfold holds; cbn [m_cur m_st m_clock]. split; [reflexivity|]. split; [lia|]. left. assumption. }
+  destruct (phase_run _ _ _ _ _ _ _ _ _ _ _ W2 HA E3 Hnt) as (p' & Hp & T).
+  destruct p' as [|te|].
+  - destruct Hp as (Hc & _). congruence.
+  - destruct Hp as (_ & _ & Hst). rewrite Hs3 in Hst. inversion Hst; subst s3 iv3.
+    destruct T as [T1 T2].
+    exists s, iv, te. repeat split; try assumption.
+    eapply alive_created; eauto.
+  - destruct Hp as (_ & Hsd & _). rewrite Hs3 in Hsd. discriminate.
+Qed.
+
+(* the strict reading differs from the tolerant one only by ticks that start before their deadline *)
+Definition tick_on_time (e : event) : Prop :=
+  match e with EvTick _ t due _ => due <= t | _ => True end.
+
+Lemma strict_step res m e : tick_on_time e -> mon_step true res m e = None -> mon_step false res m e = None.
+Proof.
+  intros Hon E. destruct e as [i0 t iv0|i0 t due v|i0 t o|j t r|k v|]; cbn [mon_step] in *; try assumption.
+  destruct (m_cur m); [reflexivity|]. destruct (m_st m i0) as [|s iv d|]; try reflexivity.
+  cbn [tick_on_time] in Hon. apply Z.leb_le in Hon. rewrite Hon in E.
+  destruct (m_clock m <=? t), (due =? d), (v =? m_ver m i0)%nat, (due - res <? t); cbn [andb] in *; try discriminate; try reflexivity.
+Qed.
+
+Lemma strict_same res m e m' : mon_step true res m e = Some m' -> mon_step false res m e = Some m' \/ mon_step false res m e = None.
+Proof.
+  intros E. destruct e as [i0 t iv0|i0 t due v|i0 t o|j t r|k v|]; cbn [mon_step] in *; auto.
+  destruct (m_cur m); [discriminate|]. destruct (m_st m i0) as [|s iv d|]; try discriminate.
+  destruct (m_clock m <=? t), (due =? d), (due <=? t), (v =? m_ver m i0)%nat, (due - res <? t); cbn [andb] in *; try discriminate; auto.
+Qed.
+
+Theorem strict_accepts_on_time res tr : forall m,
+  Forall tick_on_time tr -> mon_run false res m tr <> None -> mon_run true res m tr <> None.
+Proof.
+  induction tr as [|e tr IH]; intros m F A; cbn [mon_run] in *; [discriminate|].
+  inversion F as [|? ? Fe Ft]; subst.
+  destruct (mon_step true res m e) as [m1|] eqn:Es.
+  - destruct (strict_same _ _ _ _ Es) as [E'|E']; rewrite E' in A; [apply IH; assumption | congruence].
+  - rewrite (strict_step _ _ _ Fe Es) in A. congruence.
+Qed.
+
+(* a timer is alive exactly when it was created and no stopping event happened to it *)
+Definition live_history (j : nat) (pre : list event) : Prop :=
+  (exists s iv, In (EvCreate j s iv) pre) /\ (forall e, In e pre -> ~ stops j e).
+
+Lemma stops_dec j e : {stops j e} + {~ stops j e}.
+Proof.
+  destruct e as [| |i t o|i t r| |]; cbn [stops]; try (right; tauto).
+  - destruct o; try (right; tauto); destruct (Nat.eq_dec i j); auto.
+  - destruct r; try (right; tauto); destruct (Nat.eq_dec i j); auto.
+Qed.
+
+Lemma alive_iff strict res t0 pre : forall m, mon_run strict res (mstate0 t0) pre = Some m ->
+  forall j, is_alive (m_st m j) = true <-> live_history j pre.
+Proof.
+  induction pre as [|e pre IH] using rev_ind; intros m E j.
+  - cbn in E. inversion E; subst m. cbn. split; [discriminate|]. intros [(s & iv & []) _].
+  - rewrite mon_run_app in E. destruct (mon_run strict res (mstate0 t0) pre) as [m1|] eqn:E1; [|discriminate].
+    cbn [mon_run] in E. destruct (mon_step strict res m1 e) as [m2|] eqn:E2; [|discriminate]. inversion E; subst m2; clear E.
+    specialize (IH m1 eq_refl j).
+    pose proof (mwf_run _ _ _ _ _ (mwf0 t0) E1) as [W1 W2].
+    assert (Hsnoc : forall P : Prop, (P <-> live_history j pre) -> ~ stops j e -> (forall s iv, e <> EvCreate j s iv) ->
+                    (P <-> live_history j (pre ++ [e]))).
+    { intros P HP Hns Hnc. rewrite HP. unfold live_history. split; intros [(s & iv & Hc) Hn]; split.
+      - exists s, iv. apply in_or_app. left. assumption.
+      - intros e' He'. apply in_app_or in He'. destruct He' as [He'|[<-|[]]]; auto.
+      - apply in_app_or in Hc. destruct Hc as [Hc|[Hc|[]]]; [exists s, iv; assumption | exfalso; eapply Hnc; eauto].
+      - intros e' He'. apply Hn. apply in_or_app. left. assumption. }
+    assert (Hstop : stops j e -> is_alive (m_st m j) = false -> (is_alive (m_st m j) = true <-> live_history j (pre ++ [e]))).
+    { intros Hs Hd. rewrite Hd. split; [discriminate|]. intros [_ Hn]. exfalso. apply (Hn e); [apply in_or_app; right; left; reflexivity | assumption]. }
+    destruct (stops_dec j e) as [Hs|Hns].
+    + apply Hstop; [assumption|]. eapply stop_event; [split; eassumption | exact E2 | exact Hs].
+    + destruct e as [i0 t iv0|i0 t due v|i0 t o|j0 t r|k v|]; cbn [mon_step] in E2.
+      * step_cases E2. inversion E2; subst m; clear E2. repeat (apply andb_prop in C; destruct C as [C ?]).
+        apply Nat.eqb_eq in H0. subst i0. cbn [m_st].
+        destruct (Nat.eq_dec j (m_count m1)) as [->|Hne].
+        -- rewrite upd_same. cbn [is_alive]. split; [|reflexivity]. intros _. split.
+           ++ exists t, iv0. apply in_or_app. right. left. reflexivity.
+           ++ intros e' He'. apply in_app_or in He'. destruct He' as [He'|[<-|[]]]; [|exact Hns].
+              intros Hst. assert (Hdead : stopped m1 (m_count m1)).
+              { apply in_split in He'. destruct He' as (l1 & l2 & ->).
+                rewrite mon_run_app in E1. destruct (mon_run strict res (mstate0 t0) l1) as [ma|] eqn:Ea; [|discriminate].
+                cbn [mon_run] in E1. destruct (mon_step strict res ma e') as [mb|] eqn:Eb; [|discriminate].
+                pose proof (stop_event _ _ _ _ _ _ (mwf_run _ _ _ _ _ (mwf0 t0) Ea) Eb Hst) as Sb.
+                clear - Sb E1. revert mb Sb E1. induction l2 as [|x l2 IHl]; intros mb Sb E1; cbn [mon_run] in E1.
+                - inversion E1; subst. assumption.
+                - destruct (mon_step strict res mb x) as [mc|] eqn:Ec; [|discriminate].
+                  destruct (stopped_step _ _ _ _ _ _ Sb Ec) as (Sc & _). eapply IHl; eauto. }
+              destruct Hdead as [_ Hlt]. lia.
+        -- rewrite upd_other by assumption. apply Hsnoc; [assumption | assumption|]. intros s iv Hx. inversion Hx. congruence.
+      * destruct (m_cur m1); [discriminate|]. destruct (m_st m1 i0) as [|s iv d|]; try discriminate. step_cases E2. inversion E2; subst m.
+        cbn [m_st]. apply Hsnoc; [assumption | assumption | discriminate].
+      * destruct (m_cur m1) as [c|] eqn:Ec; [|discriminate]. step_cases E2. inversion E2; subst m; clear E2. cbn [m_st].
+        destruct (Nat.eq_dec j i0) as [->|Hne].
+        -- rewrite upd_same.
+           assert (Ho : o = RetTrue) by (destruct o; auto; exfalso; apply Hns; reflexivity). subst o.
+           apply Hsnoc; [|assumption | discriminate]. rewrite <- IH. destruct (m_st m1 i0); cbn; tauto.
+        -- rewrite upd_other by assumption. apply Hsnoc; [assumption | assumption | discriminate].
+      * step_cases E2. inversion E2; subst m; clear E2. cbn [m_st]. apply andb_prop in C. destruct C as [_ C]. apply eqb_prop in C.
+        destruct (Nat.eq_dec j j0) as [->|Hne].
+        -- destruct r; [exfalso; apply Hns; reflexivity|]. rewrite <- C.
+           apply Hsnoc; [assumption | assumption | discriminate].
+        -- apply Hsnoc; [|assumption | discriminate]. rewrite <- IH.
+           destruct (is_alive (m_st m1 j0)); [rewrite upd_other by assumption|]; tauto.
+      * inversion E2; subst m. cbn [m_st]. apply Hsnoc; [assumption | assumption | discriminate].
+      * step_cases E2. inversion E2; subst m. apply Hsnoc; [assumption | assumption | discriminate].
+Qed.
+
+(* .timerc returns 1 exactly when it stops a live timer: one that was created and has not been stopped before *)
+Theorem timerc_exact strict res t0 a j t r b :
+  accepted strict res t0 (a ++ EvCancel j t r :: b) -> (r = true <-> live_history j a).
+Proof.
+  unfold accepted. intros A. rewrite mon_run_app in A.
+  destruct (mon_run strict res (mstate0 t0) a) as [m1|] eqn:E1; [|congruence].
+  cbn [mon_run mon_step] in A.
+  destruct ((m_clock m1 <=? t) && Bool.eqb r (is_alive (m_st m1 j))) eqn:C; [|congruence].
+  apply andb_prop in C. destruct C as [_ C]. apply eqb_prop in C. rewrite C.
+  eapply alive_iff; eauto.
 Qed.
